@@ -1,0 +1,20 @@
+//go:build verif
+
+// Contracts for package libjson, read by /verif/bin/govc (see /verif/DESIGN.md).
+// Compiled only under the build tag `verif`; comments only.  NOTE: repository
+// tests scan this directory ignoring build tags; keep this file free of
+// composite literals of ownMessage.
+
+package libjson
+
+//@ func (mapEntriesByKey).Less
+//@   requires 0 <= i && i < len(m) && 0 <= j && j < len(m) && m[i] != nil && m[j] != nil && len(m[i].Cells) >= 1 && len(m[j].Cells) >= 1 && m[i].Cells[0] != nil && m[j].Cells[0] != nil
+//@   ensures  [orders-by-key-name] result == strlt(m[i].Cells[0].Str, m[j].Cells[0].Str)
+//@   modifies nothing
+//@   property C10 C13
+
+//@ func (mapEntriesByKey).Swap
+//@   requires 0 <= i && i < len(m) && 0 <= j && j < len(m)
+//@   ensures  [swaps] m[i] == old(m[j]) && m[j] == old(m[i])
+//@   ensures  [others-unchanged] forall(k, 0, len(m), k == i || k == j || m[k] == old(m[k]))
+//@   property C10 C13
